@@ -45,10 +45,7 @@ impl Serializable<Hash256> for Hash256 {
     }
 
     fn write(&self, writer: &mut dyn Write) -> io::Result<()> {
-        match writer.write(&self.0) {
-            Ok(_size) => Ok(()),
-            Err(e) => Err(e),
-        }
+        writer.write_all(&self.0)
     }
 }
 
